@@ -275,7 +275,7 @@ pub fn build_world_users(rng: &mut Rng, dopts: &DictOpts, matrix: Matrix, sys: L
     }
     let res = ResDir::standard();
     let pool = dictgen::pos_pool();
-    let unk_def = dictgen::gen_unk_def(rng, &matrix, &pool[0..3]);
+    let unk_def = dictgen::gen_unk_def(rng, &matrix, if dopts.no_symbol_pos { &pool[0..2] } else { &pool[0..3] });
     res.write("unk.def", &unk_def);
     if let Some(t) = &plugins.rewrite_def {
         res.write("rewrite.def", t);
@@ -308,7 +308,8 @@ pub fn build_world_users(rng: &mut Rng, dopts: &DictOpts, matrix: Matrix, sys: L
         }
     }
 
-    let cfg_json = plugins.to_cfg(&pool[2], &pool[0]);
+    // (dictionaries without the symbol POS name the first POS of the pool for their OOV providers)
+    let cfg_json = plugins.to_cfg(if dopts.no_symbol_pos { &pool[0] } else { &pool[2] }, &pool[0]);
     let cfg = env::config(&cfg_json, &res);
     let dict = env::load(&cfg, &sys_bytes, &user_bytes, place).map_err(|e| format!("load failed: {:?}", e))?;
     Ok(World {
